@@ -63,6 +63,18 @@ def obligation_name(step, f):
     return '%s :: %s at generated line %s' % (step['unit'], f['message'], f.get('line'))
 
 
+def lemma_level(v):
+    """failures inside theorem / lemma / link-client text (prelude blocks) or in contracts without a Kani counterpart
+    (constants, predicates proved only by Verus) are never downgraded"""
+    f = v['failure']
+    if f.get('preludes') and not f.get('clauses'):
+        return True
+    for c in f.get('clauses', []):
+        if 'controller_number_mod.rs' in c['owner'] or 'bit_util.rs' in c['owner'] or 'macro ' in c['owner']:
+            return True
+    return False
+
+
 def run_step(step, tier, seed):
     if step['kind'] == 'verus':
         r = vrun.run(step['unit'], step['slice'], REPO, seed=seed if tier == 'thorough' else 0)
@@ -129,6 +141,24 @@ def main():
                 violations.append(ent)
             else:
                 undecided.append(ent)
+
+    # Confirmation rule for Verus-decided step contracts: when the paired Kani harnesses of this property (same public
+    # contracts, real code, no modularity) all verify, an unprovable Verus obligation is a proof artefact (helper without
+    # contract, brittle proof) or concerns a helper whose public behaviour is unchanged: undecided, not a violation.
+    paired = []
+    for s_, r_ in results:
+        if r_['kind'] == 'kani':
+            paired += [h for h in r_.get('harness_list', []) if h.get('paired')]
+    kani_failed = any(v['step']['kind'] == 'kani' for v in violations)
+    if violations and paired and not kani_failed and all(h.get('result') == 'SUCCESSFUL' for h in paired) and not any(r_['tool_errors'] for s_, r_ in results if r_['kind'] == 'kani'):
+        keep = []
+        for v in violations:
+            if v['step']['kind'] == 'verus' and not v['failure'].get('no_kani_counterpart') and not lemma_level(v):
+                v['name'] += '  [not confirmed: the %d paired Kani harnesses of %s verify on the real code]' % (len(paired), pid)
+                undecided.append(v)
+            else:
+                keep.append(v)
+        violations = keep
 
     wall = round(time.time() - t0, 2)
     status = 0
